@@ -3,6 +3,8 @@ import BeffVerif.Props.C07Print
 import BeffVerif.Props.C07Keyof
 import BeffVerif.Props.C07Idx
 import BeffVerif.Props.C07Names
+import BeffVerif.Props.C07KeyofIx
+import BeffVerif.Props.C07IdxIx
 open BeffVerif.C07
 #print axioms excluded_numbers_widen_to_number
 #print axioms literal_sets_are_exact
@@ -17,3 +19,5 @@ open BeffVerif.C07
 #print axioms BeffVerif.C07N.claims
 #print axioms BeffVerif.C07N.helper_names_defined_once
 #print axioms BeffVerif.C07N.helper_names_disjoint
+#print axioms BeffVerif.C07Keyof.keyof_indexed_object
+#print axioms BeffVerif.C07Idx.idx_undeclared_key
